@@ -10,7 +10,7 @@ From MRL Require Import Bytes BytesProofs Params Names NamesProofs Frame Record 
   HandleProofs FileStream ResyncProofs QueueIso RestartInv RestartWrite RestartGc RestartStep
   OpenReplay RestartFinal TornProofs TornFile CrashTrace CrashAtomic
   JInv JGc JStep JunkStream JReopen JRecoverL JRecoverS JRecoverP JRecover JRecoverS2 JRecoverL2
-  JCrashShape JRecover2 JRecoverP2 JRecoverPk.
+  JCrashShape JRecover2 JRecoverP2 JRecoverPk KWalk KJunk KReach JRecoverS4 KAlign KGap JRecoverS5.
 
 Arguments N.add : simpl never.
 Arguments N.sub : simpl never.
@@ -23,6 +23,45 @@ Arguments N.modulo : simpl never.
 Arguments N.min : simpl never.
 Arguments N.max : simpl never.
 Arguments N.pow : simpl never.
+
+(* keeps a hypothesis out of the sight of lia until it is needed *)
+Definition hide5 (A : Prop) : Prop := A.
+
+(* the arithmetic of the crash-point premise, outside the big context *)
+Lemma fit_conv base f0 hi FB woff j B c0 L :
+  base <= f0 -> f0 <= hi -> c0 = (f0 - base) * FB + woff -> L = (hi + 1 - base) * FB ->
+  f0 * FB + woff + j + B <= (hi + 1) * FB -> c0 + j + B <= L.
+Proof.
+  intros H1 H2 -> -> H.
+  assert (Eq1 : (f0 - base) * FB + base * FB = f0 * FB) by (rewrite <- N.mul_add_distr_r; f_equal; lia).
+  assert (Eq2 : (hi + 1 - base) * FB + base * FB = (hi + 1) * FB) by (rewrite <- N.mul_add_distr_r; f_equal; lia).
+  lia.
+Qed.
+
+Lemma exact_conv base f0 hi FB woff j c0 L :
+  base <= f0 -> f0 <= hi -> c0 = (f0 - base) * FB + woff -> L = (hi + 1 - base) * FB ->
+  f0 * FB + woff + j = (hi + 1) * FB -> c0 + j = L.
+Proof.
+  intros H1 H2 -> -> H.
+  assert (Eq1 : (f0 - base) * FB + base * FB = f0 * FB) by (rewrite <- N.mul_add_distr_r; f_equal; lia).
+  assert (Eq2 : (hi + 1 - base) * FB + base * FB = (hi + 1) * FB) by (rewrite <- N.mul_add_distr_r; f_equal; lia).
+  lia.
+Qed.
+
+Lemma room_conv base f0 hi FB x L :
+  f0 <= hi -> L = (hi + 1 - base) * FB -> x <= (f0 + 1 - base) * FB -> x <= L.
+Proof.
+  intros H1 -> H.
+  assert ((f0 + 1 - base) * FB <= (hi + 1 - base) * FB) by (apply N.mul_le_mono_r; lia). lia.
+Qed.
+
+Lemma reach_conv base f0 hi FB woff j c0 :
+  base <= f0 -> f0 <= hi -> c0 = (f0 - base) * FB + woff -> (hi - f0) * FB <= woff + j ->
+  (hi - base) * FB <= c0 + j.
+Proof.
+  intros H1 H2 -> H. replace (hi - base) with ((f0 - base) + (hi - f0)) by lia.
+  rewrite N.mul_add_distr_r. lia.
+Qed.
 
 Section Recover3.
 Variable P : params.
@@ -67,6 +106,9 @@ Local Notation jpos0 := (jpos P PRE0 OLD0 opos0).
 Local Notation jNEW0 := (jNEW OLD0).
 Local Notation jser0 := (jser OLD0).
 Local Notation crash_boundJ := (crash_boundJ P PRE0 OLD0).
+Local Notation top_of img hi :=
+  (hi <= U64_MAX /\ (exists b, fs_get img (filename hi) = Some (FFile b)) /\
+   forall x, hi < x -> x <= U64_MAX -> fs_get img (filename x) = None) (only parsing).
 
 (* the shape of a crash image from the trace of a (virtual) call: the generic second half of
    JCrashShape.crashJ_image_shape *)
@@ -152,8 +194,11 @@ Proof.
   intros Hnu. destruct (Hfullj Hnu) as (E & _). unfold j. now rewrite E.
 Qed.
 
-(* the recovery of a crash image of a virtual call st -> st' logging the entries X *)
-Theorem recover_vcall_setup st G (X : list entry) st' G' evs :
+(* the recovery of a crash image of a virtual call st -> st' logging the entries X: THE general
+   statement (the proof is done once; recover_vcall_setup below, JRecover4.recover_vcall_setup_at,
+   JRecover5.recover_vcall_setup_at2 and JRecover6.recover_vcall_setup_at3 are corollaries).
+   top_of img hi is JRecover5.is_top img hi, unfolded. *)
+Theorem recover_vcall_setup_gen st G (X : list entry) st' G' evs :
   InvJ0 st G -> w_pending (s_wr st) = [] ->
   InvJ0 st' G' -> gh_base G' = gh_base G -> gh_ALL G' = gh_ALL G ++ X ->
   w_pending (s_wr st') = [] -> Forall wf_entry X ->
@@ -170,20 +215,26 @@ Theorem recover_vcall_setup st G (X : list entry) st' G' evs :
   (X = [] -> forall q, s_get (abs_qs (s_qs st')) q = s_get (abs_qs (s_qs st)) q) ->
   crash_boundJ G X (abs_qs (s_qs st)) ->
   crash_boundJ G X (abs_qs (s_qs st')) ->
-  w_file (s_wr st') = w_file (s_wr st) ->
-  w_off (s_wr st') + B <= FB ->
   forall pe, cpre pe evs ->
+      ((lenN (ev_data pe) = lenN (encs_of (call_cursor P st G) (ser X)) /\
+        lenN PRE0 + rm0 <= (w_file (s_wr st) + 1 - gh_base G) * FB) \/
+       forall hi, top_of (fold_left apply_event pe (c_fs (w_ctx (s_wr st)))) hi -> w_file (s_wr st) <= hi ->
+         w_file (s_wr st) * FB + w_off (s_wr st) + lenN (ev_data pe) + B <= (hi + 1) * FB \/
+         (w_file (s_wr st) * FB + w_off (s_wr st) + lenN (ev_data pe) = (hi + 1) * FB /\
+          lenN PRE0 + rm0 <= (w_file (s_wr st) + 1 - gh_base G) * FB)) ->
       let img := fold_left apply_event pe (c_fs (w_ctx (s_wr st))) in
       exists PRE OLD opos adm cmax rm lo' n zz qs_log lo_log Glog,
         pre_ok PRE OLD opos /\ pre_cont P PRE (ser OLD) opos adm cmax rm /\ rm <= 7 /\
         (forall m, adm (m * NB P)) /\
         rc_hyps P PRE OLD opos adm rm img lo' n (gh_base G) zz qs_log lo_log Glog /\
-        lo' + N.of_nat n = w_file (s_wr st) /\
+        top_of img (lo' + N.of_nat n) /\ w_file (s_wr st) <= lo' + N.of_nat n /\
+        lo' + N.of_nat n <= w_file (s_wr st') /\
         ((forall q, s_get (abs_qs qs_log) q = s_get (abs_qs (s_qs st)) q) \/
          (forall q, s_get (abs_qs qs_log) q = s_get (abs_qs (s_qs st')) q)).
 Proof.
-  intros HI Hp0 HI' Eb EALL' Hp0' HwfX Hct Hfs Hprefix Hnilabs Hcb Hcb' Hroll Hblkend
-         pe Hcpre. cbn zeta.
+  intros HI Hp0 HI' Eb EALL' Hp0' HwfX Hct Hfs Hprefix Hnilabs Hcb Hcb'
+         pe Hcpre Hfitpe. cbn zeta.
+  revert Hfitpe.
   pose proof HI' as (HP'0 & _).
   destruct (InvJ_winv P PRE0 OLD0 opos0 st' G' HI') as ((_ & _ & _ & _ & Hu'0 & _) & _ & _).
   destruct (image_shape_of_trace (s_wr st) G _ _ _ evs pe (proj1 HI) Hp0 Hct Hu'0 Hcpre)
@@ -246,20 +297,30 @@ Proof.
       rewrite (Htopn hi Hlt Hhimax) in Hb. discriminate. }
     subst fc. exact Htopn. }
   clear Hex Htopf Htopn Hgone Hbelow Hfc.
-  (* no roll-over: one file *)
-  assert (Ehi : hi = f0) by (unfold f1 in *; lia).
+  (* the data written by the prefix reach the start of the top file *)
+  assert (Hreach : (hi - f0) * FB <= w_off w + j).
+  { destruct (N.eq_dec hi f0) as [E|Hne]; [rewrite E, N.sub_diag; lia|].
+    destruct (Hlens hi ltac:(lia)) as (bb & Hbb & _). fold img in Hbb.
+    destruct (call_trace_reach P _ _ _ _ _ _ _ Hct pe Hcpre fs0 (filename hi)) as (nn & En & H1 & H2' & H3').
+    { apply Hfresh; lia. }
+    { fold img. rewrite Hbb. discriminate. }
+    assert (nn = hi) by (symmetry; apply filename_inj; [lia|lia|exact En]). subst nn. exact H3'. }
+  assert (Htophi : top_of img hi).
+  { split; [exact Hhimax|]. split; [|exact Htop].
+    destruct (Hlens hi ltac:(lia)) as (bb & Hbb & _). exists bb. exact Hbb. }
   set (n := N.to_nat (hi - lo')).
-  assert (Ecur : lo' + N.of_nat n = hi) by (unfold n; lia).
+  assert (Ecur : lo' + N.of_nat n = hi) by (unfold n; clear - Hlohi; lia).
   assert (Hlistx : list_wal_numbers img = iota lo' (S n)) by exact Hlist.
   assert (Hfilesx : forall f, In f (iota lo' (S n)) ->
             exists b, fs_get img (filename f) = Some (FFile b) /\ lenN b <= FB /\
                       (f <> lo' + N.of_nat n -> lenN b = FB)).
   { intros f Hf. apply iota_In in Hf. destruct (Hlens f ltac:(lia)) as (b & Hb & Hlb').
     exists b. split; [exact Hb|]. rewrite Ecur.
-    destruct (N.eqb_spec f hi) as [->|Hne]; destruct short; cbn [andb] in Hlb'; split; lia. }
+    destruct (N.eqb_spec f hi) as [->|Hne]; destruct short; cbn [andb] in Hlb'; split;
+      (clear - Hlb' Hne || clear - Hlb'); lia. }
   assert (Eext : fs_ext P img lo' n = zext P img hi).
   { unfold fs_ext. rewrite Ecur. reflexivity. }
-  assert (Hbase'' : base <= lo') by lia.
+  assert (Hbase'' : base <= lo') by (clear - Hbase; lia).
   assert (Ec0 : c0 = (lo - base) * FB + wpos P w) by reflexivity.
   assert (ENEW : NEW = encs_of c0 (ser X)) by reflexivity.
   set (a0 := lenN PRE0) in *.
@@ -272,27 +333,55 @@ Proof.
   (* the cursor lies in file f0; the whole call fits before the last block *)
   assert (Ec0f : c0 = (f0 - base) * FB + w_off w).
   { rewrite Ec0. unfold wpos.
-    replace (lenN (w_files w) - 1) with (f0 - lo) by lia.
-    replace (f0 - base) with ((lo - base) + (f0 - lo)) by lia. lia. }
+    replace (lenN (w_files w) - 1) with (f0 - lo) by (clear - Hn; lia).
+    replace (f0 - base) with ((lo - base) + (f0 - lo)) by (clear - Hbase Hlo; lia). clear - Hlo. lia. }
   pose proof (HW call_trace_pos _ _ _ _ _ _ _ Hct Hoff) as Hctp.
-  assert (Hfit : c0 + lenN NEW + B <= (hi + 1 - base) * FB).
-  { assert (E1 : c0 + lenN NEW = (f0 - base) * FB + w_off w').
-    { unfold f1 in *. rewrite Hroll in Hctp. fold w in Hctp. fold f0 in Hctp. lia. }
-    rewrite Ehi. replace (f0 + 1 - base) with ((f0 - base) + 1) by lia. lia. }
+  assert (Hbf0 : hide5 (base <= f0)) by (unfold hide5; clear - Hbase Hlo; lia).
+  assert (Hreach' : (hi - base) * FB <= c0 + j)
+    by exact (reach_conv base f0 hi FB (w_off w) j c0 Hbf0 Hf0hi Ec0f Hreach).
   set (S_all := T ++ zerosN (c0 - lenN T) ++ takeN j NEW ++ zerosN z) in *.
   assert (HlenS : lenN S_all = (hi - base + 1) * FB).
   { unfold S_all. rewrite !lenN_app, !lenN_zerosN, lenN_takeN.
-    replace (hi - base + 1) with (hi + 1 - base) by lia. lia. }
+    replace (hi - base + 1) with (hi + 1 - base) by (clear - Hbase'' Hlohi; lia).
+    clear - Hc1c Hj Hlen Ec0. lia. }
   assert (HokS : stream_ok P S_all).
   { exists ((hi - base + 1) * NB P). rewrite HlenS. unfold FILE_BYTES. lia. }
   rewrite ENEW in Hj.
   assert (HlT0 : lenN T = a0 + lenN (encs_of a0 (jser0 G))) by (rewrite ET, lenN_app; reflexivity).
-  destruct (crash_stream_preJ P HBS_lo HBS_hi Hcrc Hnc PRE0 (ser OLD0) opos0 adm0 cmax0 rm0 (jser0 G)
-              c0 (ser X) j z S_all Hpc0 Hrm0 Hc1c Hc2c Hj
-              ltac:(unfold S_all; rewrite ENEW; reflexivity)
-              HokS ltac:(rewrite <- ENEW, HlenS; replace (hi - base + 1) with (hi + 1 - base) by lia; exact Hfit))
-    as (xs_d & xs_r & PRE & adm & cmax & rm & zz & Hxs & Hpc & HSp & Hroom & Hcm & Hrm7 & Hadmc &
+  assert (Ehb : hi - base + 1 = hi + 1 - base) by (clear - Hbase'' Hlohi; lia).
+  assert (ElS : lenN S_all = (hi + 1 - base) * FB)
+    by exact (eq_trans HlenS (f_equal (fun x => x * FB) Ehb)).
+  assert (HSeq : S_all = T ++ zerosN (c0 - lenN T) ++ takeN j (encs_of c0 (ser X)) ++ zerosN z)
+    by (unfold S_all; rewrite ENEW; reflexivity).
+  intros Hfitpe.
+  assert (Hstr : exists xs_d xs_r PRE cmax rm zz,
+    ser X = xs_d ++ xs_r /\
+    pre_cont P PRE (ser OLD0 ++ jser0 G ++ xs_d) (opos0 ++ starts (lenN PRE0) (jser0 G ++ xs_d)) adm0 cmax rm /\
+    S_all = PRE ++ zerosN zz /\ lenN PRE + rm <= lenN S_all /\
+    (cmax <= Datatypes.S cmax0)%nat /\ rm <= 7 /\
+    (forall m, m * B <= c0 + j -> m * B <= ffp (lenN PRE)) /\
+    lenN (PRE0 ++ encs_of (lenN PRE0) (jser0 G)) <= lenN PRE /\ c0 <= ffp (lenN PRE) /\
+    lenN PRE0 + lenN (encs_of (lenN PRE0) (jser0 G ++ xs_d)) <= lenN PRE /\
+    lenN PRE <= lenN PRE0 + lenN (encs_of (lenN PRE0) (jser0 G ++ ser X)) + B /\
+    (xs_r <> [] -> j < lenN (encs_of c0 (ser X)))).
+  { destruct Hfitpe as [(E & HR)|Hf].
+    - exact (crash_stream_preN P HBS_lo HBS_hi Hcrc PRE0 (ser OLD0) opos0 adm0 cmax0 rm0 (jser0 G)
+               c0 (ser X) j z S_all Hpc0 Hrm0 Hc1c Hc2c Hj HSeq HokS E
+               (room_conv base f0 hi FB _ _ Hf0hi ElS HR)).
+    - destruct (Hf hi Htophi Hf0hi) as [Hfit|(Hex & HR)].
+      + exact (crash_stream_preK2 P HBS_lo HBS_hi Hcrc Hnc PRE0 (ser OLD0) opos0 adm0 cmax0 rm0 (jser0 G)
+                 c0 (ser X) j z S_all Hpc0 Hrm0 Hc1c Hc2c Hj HSeq HokS
+                 (fit_conv base f0 hi FB (w_off w) j B c0 _ Hbf0 Hf0hi Ec0f ElS Hfit)).
+      + exact (crash_stream_preG P HBS_lo HBS_hi Hcrc PRE0 (ser OLD0) opos0 adm0 cmax0 rm0 (jser0 G)
+                 c0 (ser X) j z S_all Hpc0 Hrm0 Hc1c Hc2c Hj HSeq HokS
+                 (exact_conv base f0 hi FB (w_off w) j c0 _ Hbf0 Hf0hi Ec0f ElS Hex)
+                 (room_conv base f0 hi FB _ _ Hf0hi ElS HR)). }
+  clear Hfitpe Ehb ElS HSeq.
+  destruct Hstr
+    as (xs_d & xs_r & PRE & cmax & rm & zz & Hxs & Hpc & HSp & Hroom & Hcm & Hrm7 & Hblk2 &
         HTP & Hc0P & HoldP & HPT' & Hfullj).
+  change (lenN (PRE0 ++ encs_of (lenN PRE0) (jser0 G))) with (lenN T) in HTP.
+  set (adm := adm0).
   fold a0 in Hpc, HoldP, HPT'.
   destruct (map_app_inv entry_ser X _ _ Hxs) as (Xd & Xr & HX & HXd & HXr).
   set (OLD := gh_ALL G ++ Xd).
@@ -308,26 +397,22 @@ Proof.
     split.
     { unfold opos. apply Forall_app. split.
       - eapply Forall_impl; [|exact Hb0]. cbn beta. fold a0. intros s Hs.
-        assert (HTP' : lenN T <= lenN PRE) by exact HTP. rewrite HlT0 in HTP'. lia.
+        assert (HTP' : lenN T <= lenN PRE) by exact HTP. rewrite HlT0 in HTP'. clear - Hs HTP'. lia.
       - eapply Forall_impl; [|exact Hsb]. cbn beta. intros s (_ & _ & Hs).
-        unfold ResyncProofs.cursor_after in Hs. lia. }
+        unfold ResyncProofs.cursor_after in Hs. clear - Hs HoldP. lia. }
     unfold opos. apply StronglySorted_app_lt; [exact Hs0|apply (H3 starts_sorted)|].
     intros x y Hx Hy. rewrite Forall_forall in Hb0. specialize (Hb0 x Hx).
-    rewrite Forall_forall in Hsb. destruct (Hsb y Hy) as (H1 & H2' & _). fold a0 in Hb0. lia. }
+    rewrite Forall_forall in Hsb. destruct (Hsb y Hy) as (H1 & H2' & _). fold a0 in Hb0. clear - Hb0 H1 H2'. lia. }
   assert (Hpc' : pre_cont P PRE (ser OLD) opos adm cmax rm).
   { unfold opos. rewrite EserO. exact Hpc. }
   assert (Hrd : pre_reads P PRE (ser OLD) opos adm cmax rm).
   { apply (pre_reads_of_cont P HBS_lo HBS_hi Hcrc). exact Hpc'. }
   (* geometry *)
-  assert (Hb'c0 : (lo' - base) * FB <= c0).
-  { rewrite Ec0f. assert ((lo' - base) * FB <= (f0 - base) * FB) by (apply N.mul_le_mono_r; lia). lia. }
-  assert (Hadm_all : forall mm, adm (mm * NB P)).
-  { intros mm. apply Hadmc; [apply Hadm0|]. rewrite HlenS.
-    replace (mm * NB P * B) with (mm * FB) by (unfold FILE_BYTES; lia).
-    destruct (N.le_gt_cases mm (f0 - base)) as [Hle|Hgt].
-    - left. rewrite Ec0f. assert (mm * FB <= (f0 - base) * FB) by (apply N.mul_le_mono_r; lia). lia.
-    - right. rewrite Ehi. assert ((f0 - base + 1) * FB <= mm * FB) by (apply N.mul_le_mono_r; lia). lia. }
-  assert (Hhi' : (hi - base) * FB <= ffp (lenN PRE)) by (rewrite Ehi, Ec0f in *; lia).
+  assert (Hadm_all : forall mm, adm (mm * NB P)) by exact Hadm0.
+  assert (Hhi' : (hi - base) * FB <= ffp (lenN PRE)).
+  { replace ((hi - base) * FB) with ((hi - base) * NB P * B) by (unfold FILE_BYTES; lia).
+    apply Hblk2. replace ((hi - base) * NB P * B) with ((hi - base) * FB) by (unfold FILE_BYTES; lia).
+    exact Hreach'. }
   assert (HwfO : Forall wf_entry OLD).
   { unfold OLD. apply Forall_app. split; [exact HWf|].
     rewrite HX in HwfX. apply Forall_app in HwfX. apply HwfX. }
@@ -341,7 +426,9 @@ Proof.
   assert (Htop' : forall x, lo' + N.of_nat n < x -> x <= U64_MAX -> fs_get img (filename x) = None)
     by (rewrite Ecur; exact Htop).
   assert (Hhi'' : (lo' + N.of_nat n - base) * FB <= ffp (lenN PRE)) by (rewrite Ecur; exact Hhi').
-  assert (Hbffp : (lo' - base) * FB <= ffp (lenN PRE)) by lia.
+  assert (Hbffp : (lo' - base) * FB <= ffp (lenN PRE)).
+  { assert ((lo' - base) * FB <= (hi - base) * FB) by (apply N.mul_le_mono_r; clear - Hlohi; lia).
+    clear - H Hhi'. lia. }
   assert (Hadmk : adm ((lo' - base) * NB P)) by apply Hadm_all.
   assert (Hgc_any : forall mabs, crash_boundJ G X mabs ->
             forall extra, pos_extra mabs extra ->
@@ -374,7 +461,7 @@ Proof.
         - exact (pinvJ_E_positions P PRE0 OLD0 opos0 w G HP).
         - pose proof (starts_ge_ffp P HBS_lo HBS_hi Hcrc xs_d (lenN T)) as Hs.
           eapply Forall_impl; [|exact Hs]. cbn beta. intros s Hs'.
-          rewrite <- Elo'. lia. }
+          rewrite <- Elo'. clear - Hs' Hc2c Ec0 Elo'. lia. }
       destruct Xd as [|x Xd''].
       + left. split; [reflexivity|]. now apply Hnil.
       + right. split; [discriminate|]. apply Hcons. discriminate.
@@ -383,7 +470,7 @@ Proof.
       assert (HXr0 : Xr = []).
       { destruct Xr as [|xr Xr']; [reflexivity|exfalso].
         assert (Hne : xs_r <> []) by (rewrite <- HXr; discriminate).
-        specialize (Hfullj Hne). rewrite <- ENEW in Hfullj. lia. }
+        specialize (Hfullj Hne). rewrite <- ENEW in Hfullj. clear - Hfullj Hjfull. lia. }
       assert (EXd : Xd = X) by (rewrite HX, HXr0; now rewrite app_nil_r).
       exists (s_qs st'), (wlo w'), G'.
       split; [exact HL'|]. split; [unfold OLD; rewrite EXd; exact EALL'|]. split; [exact Eb|].
@@ -394,7 +481,8 @@ Proof.
           rewrite map_app, <- HXd, EXd. reflexivity. }
         rewrite <- Ejp'.
         eapply Forall_impl; [|exact Hpos']. cbn beta. intros s Hs'.
-        assert ((lo' - base) * FB <= (wlo w' - base) * FB) by (apply N.mul_le_mono_r; lia). lia. }
+        assert ((lo' - base) * FB <= (wlo w' - base) * FB) by (apply N.mul_le_mono_r; clear - Hlo'x; lia).
+        clear - H Hs'. lia. }
       destruct (nil_dec X) as [E0|Hne].
       + left. split; [congruence|]. exact (Hnilabs E0).
       + right. split; [congruence|]. intros q. reflexivity. }
@@ -413,8 +501,58 @@ Proof.
     split; [exact HlenS'|]. split; [exact Hadmk|]. split; [exact Hroom'|]. split; [exact HwfO|].
     split; [exact Hhi''|]. split; [exact Hbffp|]. split; [exact HLlog|]. split; [exact HALLlog|].
     split; [exact Eblog|]. split; [exact Hklog|exact Hgcb]. }
-  split; [rewrite Ecur; exact Ehi|].
+  split; [rewrite Ecur; exact Htophi|]. split; [rewrite Ecur; exact Hf0hi|].
+  split; [rewrite Ecur; exact Hhif1|].
   destruct Habs as [[_ Ha]|[_ Ha]]; [left|right]; exact Ha.
+Qed.
+
+(* the recovery of a crash image of a virtual call st -> st' logging the entries X *)
+Theorem recover_vcall_setup st G (X : list entry) st' G' evs :
+  InvJ0 st G -> w_pending (s_wr st) = [] ->
+  InvJ0 st' G' -> gh_base G' = gh_base G -> gh_ALL G' = gh_ALL G ++ X ->
+  w_pending (s_wr st') = [] -> Forall wf_entry X ->
+  call_trace P (wlo (s_wr st)) (w_file (s_wr st)) (w_off (s_wr st))
+             (encs_of (call_cursor P st G) (ser X)) (w_file (s_wr st')) (w_off (s_wr st')) evs ->
+  c_fs (w_ctx (s_wr st')) = fold_left apply_event evs (c_fs (w_ctx (s_wr st))) ->
+  (* logical atomicity of every prefix of X *)
+  (forall Xd Xr, X = Xd ++ Xr ->
+     exists Gd qsd,
+       LInv qsd (wlo (s_wr st)) Gd /\ gh_base Gd = gh_base G /\ gh_before Gd = gh_before G /\
+       map snd (gh_E Gd) = map snd (gh_E G) ++ Xd /\
+       (Xd = [] -> forall q, s_get (abs_qs qsd) q = s_get (abs_qs (s_qs st)) q) /\
+       (Xd <> [] -> forall q, s_get (abs_qs qsd) q = s_get (abs_qs (s_qs st')) q)) ->
+  (X = [] -> forall q, s_get (abs_qs (s_qs st')) q = s_get (abs_qs (s_qs st)) q) ->
+  crash_boundJ G X (abs_qs (s_qs st)) ->
+  crash_boundJ G X (abs_qs (s_qs st')) ->
+  w_file (s_wr st') = w_file (s_wr st) ->
+  w_off (s_wr st') + B <= FB ->
+  forall pe, cpre pe evs ->
+      let img := fold_left apply_event pe (c_fs (w_ctx (s_wr st))) in
+      exists PRE OLD opos adm cmax rm lo' n zz qs_log lo_log Glog,
+        pre_ok PRE OLD opos /\ pre_cont P PRE (ser OLD) opos adm cmax rm /\ rm <= 7 /\
+        (forall m, adm (m * NB P)) /\
+        rc_hyps P PRE OLD opos adm rm img lo' n (gh_base G) zz qs_log lo_log Glog /\
+        lo' + N.of_nat n = w_file (s_wr st) /\
+        ((forall q, s_get (abs_qs qs_log) q = s_get (abs_qs (s_qs st)) q) \/
+         (forall q, s_get (abs_qs qs_log) q = s_get (abs_qs (s_qs st')) q)).
+Proof.
+  intros HI Hp0 HI' Eb EALL' Hp0' HwfX Hct Hfs Hprefix Hnilabs Hcb Hcb' Hroll Hblkend
+         pe Hcpre. cbn zeta.
+  assert (Hfit : w_off (s_wr st) + lenN (ev_data pe) + B <= FB).
+  { pose proof HI as (HP & _). pose proof HP as (Hw & _). pose proof Hw as (_ & _ & Hoff & _).
+    pose proof (HW call_trace_pos _ _ _ _ _ _ _ Hct Hoff) as Hctp.
+    destruct (cpre_data_take _ _ Hcpre) as (_ & Hj).
+    rewrite (call_trace_data _ _ _ _ _ _ _ _ Hct) in Hj. rewrite Hroll in Hctp.
+    clear - Hctp Hj Hblkend. lia. }
+  destruct (recover_vcall_setup_gen st G X st' G' evs HI Hp0 HI' Eb EALL' Hp0' HwfX Hct Hfs Hprefix Hnilabs
+              Hcb Hcb' pe Hcpre)
+    as (PRE & OLD & opos & adm & cmax & rm & lo' & n & zz & qs_log & lo_log & Glog &
+        H1 & H2' & H3' & H4 & H5 & _ & H6 & H6' & H7).
+  { right. intros hi _ Hle. left.
+    assert ((w_file (s_wr st) + 1) * FB <= (hi + 1) * FB) by (apply N.mul_le_mono_r; clear - Hle; lia).
+    rewrite N.mul_add_distr_r in H. clear - H Hfit. lia. }
+  exists PRE, OLD, opos, adm, cmax, rm, lo', n, zz, qs_log, lo_log, Glog.
+  repeat (split; [assumption|]). split; [rewrite Hroll in H6'; clear - H6 H6'; lia|]. exact H7.
 Qed.
 
 (* the recovery of a crash image of a virtual call *)
@@ -475,5 +613,6 @@ Qed.
 
 End Recover3.
 
+Print Assumptions recover_vcall_setup_gen.
 Print Assumptions recover_vcall_setup.
 Print Assumptions recover_vcall.
